@@ -57,6 +57,7 @@ class Flow:
                     self.methods.setdefault(n, m)
         self._walk: dict[str, list] = {}
         self._memo: dict = {}
+        self._binds: dict = {}
         # only methods that can matter: those that build a member of the family, and the methods that call them (transitively)
         relevant = {n for n, m in self.methods.items() if any(isinstance(c, ast.Call) and (c.func.id if isinstance(c.func, ast.Name) else getattr(c.func, "attr", None)) in family
                                                               for c in ast.walk(m.node))}
@@ -159,6 +160,8 @@ class Flow:
                 return self.ret.get(f.attr)
             return None
         if isinstance(e, ast.Name):
+            if e.id in self._binds:
+                return self._binds[e.id]
             return self._name(e.id, fn, depth)
         if isinstance(e, ast.Attribute) and self_attr(e):
             return ("field", e.attr)  # resolved by the caller against the class's own fields
@@ -185,6 +188,29 @@ class Flow:
             return self._join(a, b)
         if isinstance(e, ast.Constant):
             return ("const", e.value)
+        if isinstance(e, ast.UnaryOp) and isinstance(e.op, ast.Not):
+            present = self._token_present(e.operand, fn)
+            if present is not None:
+                return ("const", not present)
+            v = self._eval(e.operand, fn, depth + 1)
+            if isinstance(v, tuple) and v[0] == "const":
+                return ("const", not v[1])
+            return None
+        if isinstance(e, (ast.ListComp, ast.GeneratorExp)) and len(e.generators) == 1 and not e.generators[0].ifs:
+            g = e.generators[0]
+            src = self._eval(g.iter, fn, depth + 1)
+            elem = src[1] if isinstance(src, tuple) and src[0] == "lst" else None
+            saved = dict(self._binds)
+            try:
+                if isinstance(g.target, ast.Name):
+                    self._binds[g.target.id] = elem
+                elif isinstance(g.target, ast.Tuple):
+                    for i, t in enumerate(g.target.elts):
+                        if isinstance(t, ast.Name):
+                            self._binds[t.id] = elem[1][i] if isinstance(elem, tuple) and elem[0] == "tup" and i < len(elem[1]) else None
+                return ("lst", self._eval(e.elt, fn, depth + 1))
+            finally:
+                self._binds = saved
         return None
 
     def _token_present(self, test: ast.AST, fn: FuncInfo) -> Optional[bool]:
@@ -387,6 +413,10 @@ class Printer:
                 verdict = kind in names or (c is not None and any(k.name in names for k in c.mro()))
         elif isinstance(t, ast.Name) and isinstance(env.get(t.id), tuple) and env[t.id][0] == "const":
             verdict = bool(env[t.id][1])
+        elif isinstance(t, ast.Name) and env.get(t.id) == OPAQUE:
+            # a flag stored with the items of a collection field: which values the reader can give it is not known here (the flow analysis
+            # binds it when it is a constant) - exploring a value the reader never produces would report text nobody can print
+            raise Undecided(f"truth value of `{t.id}` (an item component the reader's flow does not determine)")
         elif isinstance(t, ast.Name):
             verdict = self._module_constant(t.id)
         elif isinstance(t, ast.Compare) and len(t.ops) == 1 and isinstance(t.ops[0], (ast.Is, ast.IsNot)) and isinstance(t.comparators[0], ast.Constant) and t.comparators[0].value is None \
@@ -485,8 +515,23 @@ class Printer:
             raise Undecided(f"attribute `{short(e)}`")
         if isinstance(e, ast.Call):
             f = e.func
+
+            def opaque(x: ast.AST) -> bool:
+                while isinstance(x, ast.Attribute):
+                    x = x.value
+                return isinstance(x, ast.Name) and env.get(x.id) == OPAQUE
+
             if isinstance(f, ast.Attribute) and f.attr == "format_as_spec" and self._fld(f.value):
                 return self._field_print(self._fld(f.value))  # type: ignore[arg-type]
+            # a module-level helper called with an item of a collection field (`_slice_as_spec(slice_)`): evaluated in line, the parameter opaque
+            if isinstance(f, ast.Name) and len(e.args) == 1 and not e.keywords and opaque(e.args[0]) and f.id in self.eng.ix.modules[self.fn.module].functions:
+                h = self.eng.ix.modules[self.fn.module].functions[f.id]
+                params = h.params()
+                if len(params) == 1:
+                    sub0: list[Form] = []
+                    self._block(list(h.node.body), {params[0]: OPAQUE}, sub0, None)  # type: ignore[attr-defined]
+                    if sub0:
+                        return list(dict.fromkeys(sub0))
             # a module-level helper of the printer's module, called with one field: evaluated in line
             if isinstance(f, ast.Name) and len(e.args) == 1 and not e.keywords and self._fld(e.args[0]) and f.id in self.eng.ix.modules[self.fn.module].functions:
                 h = self.eng.ix.modules[self.fn.module].functions[f.id]
@@ -501,11 +546,6 @@ class Printer:
                         self.alias = saved
                     if sub:
                         return sub
-            def opaque(x: ast.AST) -> bool:
-                while isinstance(x, ast.Attribute):
-                    x = x.value
-                return isinstance(x, ast.Name) and env.get(x.id) == OPAQUE
-
             if isinstance(f, ast.Name) and f.id in ("repr", "str") and len(e.args) == 1 and opaque(e.args[0]):
                 return [(("T", "NUMBER"),)]  # items of slice lists are integers (the reader builds them with int())
             if isinstance(f, ast.Attribute) and f.attr == "format_as_spec" and opaque(f.value):
